@@ -76,6 +76,38 @@ type (
 		unexp `json:"uo,omitzero"`
 		W     string
 	}
+	// inside one struct: an omitted / named embedded struct followed by a flattened one
+	DashTwo struct {
+		DashInner `json:"-"`
+		Inner
+		Tail int `json:"tail"`
+	}
+	NamedTwo struct {
+		Inner `json:"in"`
+		Base
+		Tail2 string `json:"tail2,omitempty"`
+	}
+	// V is declared by two embedded structs at the same depth (ambiguous: neither Go nor
+	// encoding/json sees it), and once more one level further down (hidden by the ambiguity)
+	AmbigA struct {
+		V int `json:"v"`
+		P int `json:"p"`
+	}
+	AmbigB struct {
+		V string `json:"v"`
+		Q int    `json:"q"`
+	}
+	AmbigC struct {
+		V bool `json:"v"`
+		R int  `json:"r"`
+	}
+	AmbigHold struct{ AmbigC }
+	Ambig     struct {
+		AmbigA
+		AmbigB
+		AmbigHold
+		S int `json:"s"`
+	}
 	Mixed struct {
 		A int8      `json:"a"`
 		B *uint16   `json:"b"`
@@ -109,6 +141,10 @@ type (
 	RecA   struct{ B *RecB }
 	RecB   struct{ A []RecA }
 	RecMap struct{ M map[string]RecMap }
+	// cycles that pass through arrays
+	RecArr  [2][]RecArr
+	RecArrP [1]*RecArrP
+	RecArrM [3]map[string]RecArrM
 	// cycles made of pointers only
 	PSelf *PSelf
 	PMutA *PMutB
@@ -159,9 +195,11 @@ var Pool = []PoolEntry{
 	{"PtrEmbed", reflect.TypeFor[PtrEmbed](), "struct"}, {"Deep", reflect.TypeFor[Deep](), "struct"}, {"WithUnexp", reflect.TypeFor[WithUnexp](), "struct"},
 	{"Mixed", reflect.TypeFor[Mixed](), "struct"}, {"Described", reflect.TypeFor[Described](), "struct"},
 	{"TaggedUnexp", reflect.TypeFor[TaggedUnexp](), "struct"}, {"TaggedUnexpOmit", reflect.TypeFor[TaggedUnexpOmit](), "struct"},
+	{"DashTwo", reflect.TypeFor[DashTwo](), "struct"}, {"NamedTwo", reflect.TypeFor[NamedTwo](), "struct"}, {"Ambig", reflect.TypeFor[Ambig](), "struct"},
 	{"DashInner", reflect.TypeFor[DashInner](), "struct"}, {"DashMid", reflect.TypeFor[DashMid](), "struct"},
 	{"Rec", reflect.TypeFor[Rec](), "recursive"}, {"RecA", reflect.TypeFor[RecA](), "recursive"}, {"RecB", reflect.TypeFor[RecB](), "recursive"}, {"RecMap", reflect.TypeFor[RecMap](), "recursive"},
 	{"PSelf", reflect.TypeFor[PSelf](), "recursive"}, {"PMutA", reflect.TypeFor[PMutA](), "recursive"},
+	{"RecArr", reflect.TypeFor[RecArr](), "recursive"}, {"RecArrP", reflect.TypeFor[RecArrP](), "recursive"}, {"RecArrM", reflect.TypeFor[RecArrM](), "recursive"},
 	{"NFunc", reflect.TypeFor[NFunc](), "unsupported"}, {"NChan", reflect.TypeFor[NChan](), "unsupported"}, {"NIntMap", reflect.TypeFor[NIntMap](), "unsupported"},
 	{"NFuncs", reflect.TypeFor[NFuncs](), "unsupported"}, {"NComplex", reflect.TypeFor[NComplex](), "unsupported"},
 	{"HasChan", reflect.TypeFor[HasChan](), "unsupported"}, {"HasFunc", reflect.TypeFor[HasFunc](), "unsupported"}, {"HasComplex", reflect.TypeFor[HasComplex](), "unsupported"},
@@ -180,7 +218,7 @@ func poolByName(name string) (PoolEntry, bool) {
 }
 
 // EmbeddablePool lists pool structs that reflect.StructOf can embed (exported, no methods).
-var EmbeddablePool = []string{"Inner", "Base", "Shadow", "Described", "Mixed", "DashMid", "DashInner"}
+var EmbeddablePool = []string{"Inner", "Base", "Shadow", "Described", "Mixed", "DashMid", "DashInner", "DashTwo", "NamedTwo", "Ambig"}
 
 // ---- descriptors ------------------------------------------------------------------------------
 
